@@ -94,7 +94,7 @@ def edges(rng, case, idx):
     fam = only[idx % len(only)] if only else idx % N_FAMILIES
     M.count('EDGE')
     # the families that bake large plates or long recipes run only in the checks whose property they are about
-    if case['prop'] not in {16: ('C09',), 20: ('C09', 'C18', 'C17'), 28: ('C09', 'C18')}.get(fam, (case['prop'],)):
+    if case['prop'] not in {16: ('C09',), 20: ('C09', 'C18', 'C17'), 28: ('C09', 'C18', 'C17')}.get(fam, (case['prop'],)):
         M.count('EDGE.skipped_expensive_family_of_another_property')
         return
     with M.active(case):
@@ -1023,6 +1023,15 @@ def edges(rng, case, idx):
                 res, exc = attempt(lambda: tube.dilute(lig, f'{higher * 1e12:.6g} pmol/L', water))
                 if exc is None or not isinstance(exc, ValueError):
                     viol(['C11', 'C03'], 'C03:target_above_the_current_concentration_accepted:few_stored_digits_of_solute', {'held': held, 'current_M': now, 'target_M': higher})
+            M.bucket(case['prop'] + '/edge/E30_a_dilution_that_does_not_fit')
+            pep = S.solid('peptide', 1000.0)
+            for held_pg, target, fits in ((2, '19.5 pM', False), (2, '19 pM', False), (2000000, '19.5 uM', False), (2000000, '20 uM', True)):
+                wl = C('well', '100 uL', [(water, '50 uL'), (pep, f'{held_pg} pg')])
+                res, exc = attempt(lambda: wl.dilute(pep, target, water))
+                if not fits and exc is None and cf.q * cf.mol_prefix <= 1e-15:
+                    viol(['C03', 'C11'], 'C03:dilution_over_capacity_accepted', {'held_pg': held_pg, 'target': target, 'well_uL': 100, 'result_uL': res.get_volume('uL')})
+                elif fits and exc is not None:
+                    viol(['C03', 'C11'], f'C03:dilute_exactly_to_capacity_refused:mixture:{type(exc).__name__}', {'held_pg': held_pg, 'target': target, 'exc': repr(exc)[:100]})
             M.bucket(case['prop'] + '/edge/E30_an_unreachable_concentration_of_a_pure_enzyme')
             eco = S.enzyme('EcoRI', rng.choice(['1000 U/ug', '100 U/ug', '2000 U/mg']))
             vial = C('vial', initial_contents=[(eco, '500 U')])
